@@ -5,7 +5,8 @@
      {"t":"C","sp":spare,"n":delivered}                the read callback was called (n = -1: end of file)
      {"t":"O","ev":{...}}                              Reader::new returned the header ({"e":"hdr"}) or
                                                        Reader::read returned Some(item)
-     {"t":"E","end":"fin"|"err:<class>"|"panic"|"hang"}  the run ended
+     {"t":"E","end":"fin"|"err:<class>"|"panic"|"hang"}  the run ended (end = "fin": with dp, di = what
+                                                       the accessors report changed when FINISH was read)
 
    Mode "detailed": every event must be the step of Teehist.tla (buffer + reader) it claims to be;
    the property-level acceptor runs along.  Mode "props": only what the user relies on
@@ -29,7 +30,8 @@ Class(end) == IF end = "fin" THEN "fin" ELSE IF end \in {"panic", "hang"} THEN e
 Load(s) ==
   /\ S' = s /\ rd' = Rd0 /\ hdr' = FALSE /\ ws' = 0 /\ dl' = 0 /\ cap' = 0 /\ pos' = 0
   /\ evs' = <<>> /\ sched' = <<>> /\ zr' = 0 /\ pr' = Pr0
-  /\ ref' = (IF s.ver = 0 \/ Mode = "detailed" THEN [ev |-> <<>>, end |-> ""] ELSE [ev |-> <<>>, end |-> Read(s).end])
+  /\ ref' = (IF s.ver = 0 \/ Mode = "detailed" THEN [ev |-> <<>>, end |-> ""]
+             ELSE [ev |-> <<>>, end |-> IF HdrEnd(s) # "" THEN HdrEnd(s) ELSE Read(s).end])
   /\ tot' = Total(s)
 
 TInit ==
@@ -52,13 +54,15 @@ DRead ==
 DOut ==
   /\ ev.t = "O"
   /\ Emit
-  /\ IF (IF ~hdr THEN [e |-> "hdr"] ELSE Call(S, rd).out) = ev.ev THEN TRUE ELSE Reject("detailed:other-event")
+  /\ IF (IF ~hdr THEN HEv(S) ELSE Call(S, rd).out) = ev.ev THEN TRUE ELSE Reject("detailed:other-event")
   /\ IF pr'.ok THEN TRUE ELSE Reject(pr'.why)
   /\ UNCHANGED <<refEvs, refEnd>>
+QuietEnd == ~("dp" \in DOMAIN ev) \/ (ev.dp = <<>> /\ ev.di = <<>>)
 DEnd ==
   /\ ev.t = "E"
   /\ IF Done THEN UNCHANGED vars ELSE Emit /\ evs' = evs
   /\ IF rd'.end = ev.end THEN TRUE ELSE Reject("detailed:other-end " \o rd'.end)
+  /\ IF QuietEnd THEN TRUE ELSE Reject("sums:query-differs")
   /\ UNCHANGED <<refEvs, refEnd>>
 
 \* ---- property level.  A rejected run is reported (one PROP-REJECT line) and skipped, so that
@@ -79,7 +83,8 @@ POut ==
      ELSE PReject(p.why) /\ PSkipRest
 PEndEv ==
   /\ ev.t = "E" /\ ~skip
-  /\ LET p == PFinal(S, PEnd(S, pr, ev.end), ev.end, ref.end)
+  /\ LET p0 == PFinal(S, PEnd(S, pr, ev.end), ev.end, ref.end)
+         p == IF p0.ok /\ ~QuietEnd THEN Bad(p0, "sums:query-differs") ELSE p0
          same == refEnd = "" \/ (evs = refEvs /\ Class(ev.end) = refEnd) IN
      IF ~p.ok THEN PReject(p.why) /\ PSkipRest
      ELSE IF ~same THEN PReject("fragmentation:output-differs") /\ PSkipRest
